@@ -96,6 +96,16 @@ def model_clauses(k_fn, d_fn):
   }
 
 
+def assigns(*attrs):
+  """C17 (bookkeeping): every attribute a fit of this estimator ever sets is assigned by EVERY successful fit, so that none
+  keeps the value of an earlier fit"""
+  def cl(a, events, r):
+    oid = a.self._obj.oid
+    written = {e[2] for e in events if e[0] == 'setattr' and e[1] == oid}
+    return z3.BoolVal(set(attrs) <= written)
+  return cl
+
+
 FIT_RAISES = {'ValueError': May(), 'LinAlgError': May(), 'NonPSDError': May()}
 
 # ------------------------------------------------------------------------------------------------ Covariance
@@ -151,7 +161,7 @@ register(Contract(
     cases=itml_fit_cases(),
     ensures=dict(model_clauses(lambda a: a.pairs.dim(2), lambda a: a.pairs.dim(2)),
                  **{'bounds_-has-two-entries': lambda a, r: z3.And(a.self.bounds_.ndim == 1, a.self.bounds_.dim(0) == 2)}),
-    events={'randomness-seeded': seeded},
+    events={'randomness-seeded': seeded, 'bookkeeping-attributes-assigned-by-every-fit': assigns('components_', 'bounds_', 'n_iter_')},
     raises=dict(FIT_RAISES),
     modifies=ITML_MOD,
     prop=['C03', 'C11', 'C17']))
@@ -181,8 +191,41 @@ register(Contract(
     cases=lsml_fit_cases(),
     ensures=dict(model_clauses(lambda a: a.quadruplets.dim(2), lambda a: a.quadruplets.dim(2)),
                  **{'w_-one-weight-per-constraint': lambda a, r: z3.And(a.self.w_.ndim == 1)}),
-    events={'randomness-seeded': seeded},
+    events={'randomness-seeded': seeded, 'bookkeeping-attributes-assigned-by-every-fit': assigns('components_', 'w_', 'n_iter_')},
     raises=dict(FIT_RAISES),
     modifies={'components_', 'preprocessor_', 'n_features_in_', 'w_', 'n_iter_'},
     prop=['C03', 'C12', 'C17']))
 C.unit('C03', 'lsml:_BaseLSML._fit')
+
+
+# ----------------------------------------------------------------------------------------------------- MMC
+INITS_M = [('identity', Str('identity')), ('covariance', Str('covariance')), ('random', Str('random')),
+           ('array', Arr(2, owner=frozenset({('attr', 'init')}), dims=['pd0', 'pd1']))]
+
+
+def mmc_hyper(init, diagonal, seed='seed'):
+  return {'max_iter': Int(1), 'max_proj': Int(1), 'tol': Real(), 'init': init, 'diagonal': Const(VBool(diagonal)), 'diagonal_c': Real(),
+          'verbose': Const(VBool(False)), 'random_state': Int() if seed == 'seed' else NoneT(), 'convergence_threshold': Str('deprecated')}
+
+
+def mmc_fit_cases():
+  out = []
+  for iname, ispec in INITS_M:
+    for diag in (False, True):
+      for h in ('fresh', 'refit'):
+        if diag and (iname not in ('identity', 'array')):
+          continue
+        out.append(Case('%s-%s-%s' % (iname, 'diag' if diag else 'full', h),
+                        {'self': est('MMC', mmc_hyper(ispec, diag), h), 'pairs': pairs_arr(), 'y': Arr(1, 'i', dims=['n'])}))
+  return out
+
+
+register(Contract(
+    'mmc:_BaseMMC._fit',
+    cases=mmc_fit_cases(),
+    ensures=model_clauses(lambda a: a.pairs.dim(2), lambda a: a.pairs.dim(2)),
+    events={'randomness-seeded': seeded, 'bookkeeping-attributes-assigned-by-every-fit': assigns('components_', 'A_', 'n_iter_', 'converged_')},
+    raises=dict(FIT_RAISES),
+    modifies={'components_', 'preprocessor_', 'n_features_in_', 'A_', 'n_iter_', 'converged_'},
+    prop=['C03', 'C14', 'C17']))
+C.unit('C03', 'mmc:_BaseMMC._fit')
